@@ -208,9 +208,23 @@ class Facts:
         if "str" in k:
             return k["str"]
         u = k.get("uneval")
+        if u and "promoted" in k:
+            return self.promoted_str(u, k["promoted"])
         if u and u in self.consts and "str" in self.consts[u]:
             return self.consts[u]["str"]
         return None
+
+    def promoted_str(self, defpath, idx):
+        """String literal behind a promoted constant such as `&"asc"` (if it is one)."""
+        b = self.bodies.get("%s::{promoted#%d}" % (defpath, idx))
+        if b is None:
+            return None
+        vals = []
+        for i, j, s in b.assigns():
+            rv = s["rv"]
+            if rv["k"] == "use" and "k" in rv["op"] and "str" in rv["op"]["k"]:
+                vals.append(rv["op"]["k"]["str"])
+        return vals[0] if len(vals) == 1 else None
 
     def const_int(self, k):
         if k is None:
